@@ -42,11 +42,15 @@ def num(x) -> R:
     return R.const(Fraction(x))
 
 
-def make_candles(symbols, n):
+def make_candles(symbols, n, light=False):
     out = {}
     for s in symbols:
         tag = s.split("-")[0].lower()
-        rows = Arr2([Arr([num(T0 + k * MINUTE)] + [R.atom(f"{tag}.{x}{k}") for x in "ochlv"]) for k in range(n)])
+        if light:
+            cells = [R.atom(f"{tag}.{x}") for x in "ochlv"]
+            rows = Arr2([Arr([num(T0 + k * MINUTE)] + cells) for k in range(n)])
+        else:
+            rows = Arr2([Arr([num(T0 + k * MINUTE)] + [R.atom(f"{tag}.{x}{k}") for x in "ochlv"]) for k in range(n)])
         out[f"Sandbox-{s}"] = {"exchange": "Sandbox", "symbol": s, "candles": rows}
     return out
 
@@ -85,9 +89,11 @@ class Session:
         self.events, self.candles = events, candles
 
 
-def run(repo: Repo, sim: str, symbols=("AAA-USDT", "BBB-USDT"), minutes=6, timeframe="3m", step=None, data_symbols=()) -> Session:
+def run(repo: Repo, sim: str, symbols=("AAA-USDT", "BBB-USDT"), minutes=6, timeframe="3m", step=None, data_symbols=(), light=False) -> Session:
+    """light=True: long sessions for rules about WHEN things happen (sampling): the candle cells are not distinguished and the gap
+    normalisation is the identity"""
     events: List[Tuple] = []
-    candles = make_candles(tuple(symbols) + tuple(data_symbols), minutes)
+    candles = make_candles(tuple(symbols) + tuple(data_symbols), minutes, light)
     stubs = W.base_stubs()
     fast = sim == "_skip_simulator"
 
@@ -99,7 +105,7 @@ def run(repo: Repo, sim: str, symbols=("AAA-USDT", "BBB-USDT"), minutes=6, timef
             rows = [c]
         else:
             raise AnalysisError(f"{sim}: the matcher is called with {c!r}")
-        events.append(("match", sym, minute_of(rows[0]), len(rows), rows))
+        events.append(("match", sym, minute_of(rows[0]), len(rows), None if light else rows))
         for r in rows:                   # the real matcher stores the 1m candles it was given
             put(sym, "1m", r)
     for nm in ("_simulate_price_change_effect", "_simulate_price_change_effect_multiple_candles"):
@@ -107,6 +113,8 @@ def run(repo: Repo, sim: str, symbols=("AAA-USDT", "BBB-USDT"), minutes=6, timef
 
     def rec_fix(it, a, k):
         prev, cur = a[0], a[1]
+        if light:
+            return cur
         po, co = origin(prev), origin(cur)
         events.append(("fix", po, co))
         # the normalised candle keeps the timestamp (so later events can be attributed to a minute); its cells are fresh atoms
@@ -130,8 +138,8 @@ def run(repo: Repo, sim: str, symbols=("AAA-USDT", "BBB-USDT"), minutes=6, timef
         rows = list(sl.rows) if isinstance(sl, Arr2) else None
         if rows is None:
             raise AnalysisError(f"{sim}: generate_candle_from_one_minutes is called with {sl!r}")
-        events.append(("gen", tf, minute_of(rows[0]) if rows else None, len(rows), rows))
-        o0 = origin(rows[0]) if rows else None
+        events.append(("gen", tf, minute_of(rows[0]) if rows else None, len(rows), None if light else rows))
+        o0 = origin(rows[0]) if rows and not light else None
         return Arr([rows[0].items[0] if rows else num(0)] + [R.atom(f"gen<{tf}|{o0[0] if o0 else '?'}.{minute_of(rows[0]) if rows else 'x'}+{len(rows)}>.{x}") for x in "ochlv"])
     stubs["jesse/services/candle.py:generate_candle_from_one_minutes"] = rec_gen
 
@@ -148,13 +156,17 @@ def run(repo: Repo, sim: str, symbols=("AAA-USDT", "BBB-USDT"), minutes=6, timef
     cs = Obj("CandlesState", name="store.candles", attrs={}, open_world=True)
     stored: Dict[Tuple, List] = {}
 
+    index: Dict[Tuple, Dict] = {}
+
     def put(sym, tf, row):
         rows = stored.setdefault((sym, tf), [])
+        pos = index.setdefault((sym, tf), {})
         ts = row.items[0]
-        for k, r in enumerate(rows):
-            if isinstance(r.items[0], R) and isinstance(ts, R) and r.items[0].same(ts):
-                rows[k] = row
-                return
+        key = ts.const_value() if isinstance(ts, R) and ts.is_const() else id(row)
+        if key in pos:
+            rows[pos[key]] = row
+            return
+        pos[key] = len(rows)
         rows.append(row)
 
     def add_candle(i, a, k):
